@@ -113,3 +113,81 @@ func namedUint16Constants(rel string) []uint16 {
 	sort.Slice(out, func(i, j int) bool { return out[i] < out[j] })
 	return out
 }
+
+// c14SourceWords: the short string literals (1..12 printable characters without blanks or format verbs; import paths
+// excluded) of the files a helper lives in, read from the current source like the integer alphabet: a label, prefix or
+// suffix that a new branch compares with enters the alphabet by itself. At most 32 words (shortest first); more are
+// reported through the second result.
+var c14WordCache = map[string][]string{}
+
+func c14SourceWords(helper string) (words []string, dropped int) {
+	key := helper
+	if strings.HasPrefix(helper, "nasConvert.") {
+		key = "nasConvert"
+	}
+	if w, ok := c14WordCache[key]; ok {
+		return w, 0
+	}
+	var files []string
+	switch {
+	case key == "nasConvert":
+		all, _ := filepath.Glob(filepath.Join(repoDir(), "nasConvert", "*.go"))
+		for _, f := range all {
+			if !strings.HasSuffix(f, "_test.go") {
+				files = append(files, f)
+			}
+		}
+	case strings.HasPrefix(helper, "nasType."):
+		parts := strings.Split(helper, ".")
+		if len(parts) >= 2 {
+			f := filepath.Join(repoDir(), "nasType", "NAS_"+parts[1]+".go")
+			if _, err := os.Stat(f); err == nil {
+				files = append(files, f)
+			}
+		}
+	}
+	set := map[string]bool{"a": true, "internet": true}
+	fset := token.NewFileSet()
+	for _, f := range files {
+		af, err := parser.ParseFile(fset, f, nil, 0)
+		if err != nil {
+			continue
+		}
+		ast.Inspect(af, func(n ast.Node) bool {
+			switch x := n.(type) {
+			case *ast.ImportSpec:
+				return false
+			case *ast.BasicLit:
+				if x.Kind != token.STRING {
+					return true
+				}
+				s, err := strconv.Unquote(x.Value)
+				if err != nil || len(s) < 1 || len(s) > 12 || strings.ContainsAny(s, " %") {
+					return true
+				}
+				for i := 0; i < len(s); i++ {
+					if s[i] < 0x21 || s[i] > 0x7E {
+						return true
+					}
+				}
+				set[s] = true
+			}
+			return true
+		})
+	}
+	for w := range set {
+		words = append(words, w)
+	}
+	sort.Slice(words, func(i, j int) bool {
+		if len(words[i]) != len(words[j]) {
+			return len(words[i]) < len(words[j])
+		}
+		return words[i] < words[j]
+	})
+	if len(words) > 32 {
+		dropped = len(words) - 32
+		words = words[:32]
+	}
+	c14WordCache[key] = words
+	return words, dropped
+}
